@@ -22,8 +22,18 @@
          fragment, column) vs scanEntry of the model: same states added to the same columns
      (d) for grammars that are finite unions of terminal sequences: the model's `feed` on the same pieces —
          complete parses (as leaf sequences), resumable incomplete states and can_continue after every piece
+     (d') for EVERY grammar: the model's `feed` on the engine of the REAL closure (Model/IncrEarley.lean:
+         earleyEngine — Earley.step of the line-by-line Earley model for predict / complete / pending completions /
+         covering cut / place_repetition_shortcut, scanning through the scanner layer) on the same pieces —
+         complete parses as whole collapsed trees, resumable incomplete states and can_continue after every piece,
+         exact agreement; per piece the driver also reports whether every column pass is one the laws are PROVED
+         for (came to its end, covering cut did not fire, no `*` / `+` right-recursion state in the closed column):
+         the share of pieces inside the proof is printed (coverage.erun)
      (e) the hypotheses of the theorems per case: CutStable of the regex oracle on all infixes of the input
          (against `re` / `regex`)
+     (f) observation (no verdict): the CHART of the real parser depends on the fragmentation where
+         place_repetition_shortcut has two candidates (Props/C13.lean: C13_earley_close_core_needs_ok) while the
+         parses do not — the documented witness is replayed and the outcome recorded (coverage.chart_probe)
    Besides the general classes the generator has five classes aimed at the parser repairs of the last session —
    empty-regex (179bde08), mixed-bits (a33087ac), wide-char (1ef12755), open-rep (b48dd899), nullable-pred
    (1d73281f) — each with a characteristic event that is counted (`hit:<class>`); a class without a single hit
@@ -36,7 +46,7 @@ import os
 import re
 from typing import Any
 
-from harness import translate_incr
+from harness import translate_earley, translate_incr
 from harness.common import VERIF, MachineryError, Run, driver_ask, lean_check, use_repo
 from harness.gen.grammars import CORNER_SPECS, gen_spec
 from harness.impl.pool import run_pool
@@ -46,17 +56,25 @@ SIG_SPLIT = "C13/regex-nongreedy-split"
 CORPUS = VERIF / "corpus" / "C13"
 NEW_CLASSES = ["empty-regex", "mixed-bits", "wide-char", "open-rep", "nullable-pred"]
 
+CHART_SPEC = '<start> ::= <b>*\n<b> ::= "x" | "ab" "c" | "a" "bc"\n'
+EARLEY_FUEL = 20000      # steps per column pass of the engine of the real closure
+
 TRUSTED = [
     "Lean 4.33.0 kernel; axioms ⊆ {propext, Classical.choice, Quot.sound} (audited per run)",
     "hand-written scanner model lean/Model/Incremental.lean of scan_bytes/scan_regex/scan_bit/_consume/"
     "can_continue; tied by this run's scan-call correspondence and (linear grammars) whole-run correspondence, "
     "and by the translator harness/translate_incr.py (pins the AST of the match-length test of scan_regex, of "
     "the byte-boundary guard of _consume and of the wide-unit refusal of scan_bit: C13_source_configuration)",
-    "the predict/complete closure is abstract in the theorems: laws Engine.Lawful/LawfulCC are assumed of it "
-    "(proved for the linear engine); for the real closure they rest on the differential observation (a),(b)",
+    "the predict/complete closure: the laws Engine.LawfulOn/LawfulCCOn are PROVED for the engine of the real "
+    "closure (Model/IncrEarley.lean, built from Earley.step of Model/Earley.lean; tied by this run's whole-run "
+    "correspondence (d') on every grammar and by harness/translate_earley.py: C13_closure_configuration) for the "
+    "column passes that end within the fuel, without the covering cut firing and without a `*`/`+` "
+    "right-recursion state in the closed column; outside these passes (share printed per run) the property rests "
+    "on the differential observation (a),(b)",
     "regex oracle = CPython `re.match` and `regex` partial matching, asked the way Terminal.check asks; "
     "CutStable is evaluated per case on all infixes of the input",
     "harness/impl/incr_real.py (instrumentation, linearisation of non-recursive grammars), "
+    "harness/impl/grammar_io.py (IR JSON of the grammar for the engine of the real closure), "
     "harness/gen/grammars.py",
 ]
 
@@ -203,6 +221,9 @@ def mk_cases(run: Run, tier: str) -> list[dict]:
                   "features": ["corner"], "words": [[49, 50], [49, 50, 51]]})
     cases.append({"spec": '<start> ::= "abc" "d"?\n', "kind": "str", "cls": "corner", "features": ["corner"],
                   "words": [[97, 98, 99, 100], [97, 98, 99], [97, 98, 120]]})
+    # the chart (not the parses) depends on the fragmentation: two candidates for place_repetition_shortcut
+    cases.append({"spec": CHART_SPEC, "kind": "str", "cls": "corner", "features": ["corner", "shortcut-order"],
+                  "words": [_w("xabcx"), _w("xabc")], "chart_probe": [[3, 2], [3, 1]]})
     # shapes of the open finding (a regex match that can end in more than one place), so that the exact
     # prediction of it is exercised on every seed: acceptance itself depends on the cut; preferred-alternative
     # regexes; repetition of a regex; bytes; a regex between literals; three-way splits
@@ -223,6 +244,16 @@ def mk_cases(run: Run, tier: str) -> list[dict]:
         ('<start> ::= <x> "b"\n<x> ::= r"a(?=b)"\n', "str", ["ab"]),
     ]:
         cases.append({"spec": spec, "kind": kind, "cls": "corner", "features": ["corner", "regex-split"],
+                      "words": [w(x) for x in words]})
+    # grammars with a same-span self-derivation: the covering cut of `complete` fires (the engine of the real closure
+    # is compared on them; the closure laws are NOT proved for passes in which the cut fires)
+    for spec, words in [
+        ('<start> ::= ("a"?)* "b"\n', ["b", "ab", "aab"]),
+        ('<start> ::= <a> "y"\n<a> ::= <a> | "x"\n', ["xy", "y"]),
+        ('<start> ::= <x> "z"\n<x> ::= <y> <x> | ""\n<y> ::= "q"?\n', ["z", "qz", "qqz"]),
+        ('<start> ::= <e>{2,} "k"\n<e> ::= "" | "e"\n', ["k", "ek", "eek"]),
+    ]:
+        cases.append({"spec": spec, "kind": "str", "cls": "corner", "features": ["corner", "eps-cycle"],
                       "words": [w(x) for x in words]})
     for spec, kind, cls, words in NEW_FIXED:
         cases.append({"spec": spec, "kind": kind, "cls": cls, "features": ["corner", cls],
@@ -272,7 +303,8 @@ def canon_real_out(o: dict) -> tuple:
     return (o["col"], bool(o["inc"]), o["idx"], o["last_kind"], tuple(o["last"]))
 
 
-def check_result(run: Run, case: dict, res: dict, corr: list, scan_reqs: list, run_reqs: list) -> None:
+def check_result(run: Run, case: dict, res: dict, corr: list, scan_reqs: list, run_reqs: list,
+                 erun_reqs: list) -> None:
     spec, kind = case["spec"], case["kind"]
     mode = "t" if kind == "str" else "b"
     for rec in res["words"]:
@@ -414,6 +446,79 @@ def check_result(run: Run, case: dict, res: dict, corr: list, scan_reqs: list, r
                     i += ln
                 req = {"op": "run", "mode": mode, "alts": res["alts"], "pieces": pieces, "oracle": rec["oracle"]}
                 run_reqs.append((req, r, spec, word))
+        # (d') whole-run model on the engine of the real closure, every grammar
+        if res.get("gj") is not None:
+            for r in rec["runs"]:
+                if not r["steps"] or r.get("raised"):
+                    continue
+                pieces, i = [], 0
+                for ln in r["comp"]:
+                    pieces.append(word[i:i + ln])
+                    i += ln
+                req = {"op": "erun", "mode": mode, "grammar": res["gj"], "start": "<start>", "pieces": pieces,
+                       "oracle": rec["oracle"], "fuel": EARLEY_FUEL}
+                erun_reqs.append((req, r, spec, word, cls))
+        # (f) the chart probe (observation)
+        for cp in rec.get("chart_probe", []):
+            run.count("chart_probe:runs")
+            run.coverage.setdefault("chart_probe", []).append({"spec": spec, "input": word, **cp})
+            if cp["differing_columns"] and cp["same_parses"]:
+                run.count("chart_probe:chart_differs_parses_equal")
+            elif cp["differing_columns"]:
+                run.count("chart_probe:chart_and_parses_differ")
+            else:
+                run.count("chart_probe:chart_equal")
+
+
+def compare_erun(run: Run, corr: list, erun_reqs: list) -> None:
+    """(d') the engine of the real closure against the real parser, piece by piece"""
+    if not erun_reqs:
+        return
+    answers = driver_ask("drv_incr", [q[0] for q in erun_reqs], timeout=1500)
+    for (req, r, spec, word, cls), a in zip(erun_reqs, answers):
+        run.count("corr:erun")
+        run.count(f"class:{cls}:corr_erun")
+        for i, (ms, rs) in enumerate(zip(a["steps"], r["steps"])):
+            run.count("erun:pieces")
+            if not ms["halted"]:
+                # the model's pass did not end within the fuel: nothing to compare (and outside the proof)
+                run.count("erun:pieces_fuel_exhausted")
+                break
+            inside = not ms["cut"] and not ms["beginners"]
+            run.count("erun:pieces_inside_proof" if inside else "erun:pieces_outside_proof")
+            if ms["cut"]:
+                run.count("erun:pieces_with_covering_cut")
+            if ms["beginners"]:
+                run.count("erun:pieces_with_star_plus_state")
+            m_trees = sorted(set(json.dumps(t, separators=(",", ":")) for t in ms["parses"]))
+            r_trees = sorted(set(json.dumps(json.loads(t), separators=(",", ":")) for t in rs["trees"]))
+            m_res = sorted(set(json.dumps({"want": x["want"], "idx": x["idx"], "pre": x["pre"]},
+                                          sort_keys=True) for x in ms["resumable"]))
+            bad = None
+            if m_trees != r_trees:
+                bad = "complete parses (trees)"
+            elif m_res != rs["resumable"]:
+                bad = "resumable states"
+            elif ms["can_continue"] != rs["can_continue"]:
+                bad = "can_continue"
+            if r_trees:
+                run.count("erun:pieces_with_parses")
+            if bad:
+                corr.append({"kind": "erun", "what": bad, "spec": spec, "input": word, "pieces": req["pieces"],
+                             "step": i, "inside_proof": inside,
+                             "impl": {"trees": r_trees[:4], "resumable": rs["resumable"],
+                                      "can_continue": rs["can_continue"]},
+                             "model": {"trees": m_trees[:4], "resumable": m_res,
+                                       "can_continue": ms["can_continue"]}})
+                break
+    n = run.counters.get("erun:pieces", 0)
+    run.coverage["erun"] = {
+        "runs": run.counters.get("corr:erun", 0), "pieces": n,
+        "pieces_inside_proof": run.counters.get("erun:pieces_inside_proof", 0),
+        "pieces_outside_proof(star/plus state)": run.counters.get("erun:pieces_with_star_plus_state", 0),
+        "pieces_outside_proof(covering cut)": run.counters.get("erun:pieces_with_covering_cut", 0),
+        "pieces_fuel_exhausted": run.counters.get("erun:pieces_fuel_exhausted", 0)}
+    print(f"[C13] engine of the real closure: {run.coverage['erun']}")
 
 
 def compare_model(run: Run, corr: list, scan_reqs: list, run_reqs: list) -> None:
@@ -501,10 +606,14 @@ def main(tier: str) -> int:
     run = Run(PID, tier, "proof")
     use_repo()
     gen = translate_incr.regenerate()
+    gen_e = translate_earley.regenerate()       # the closure's variant (C13_closure_configuration)
     lean = lean_check("Props.C13", ["drv_incr"])
     for r in gen["refusals"]:
         lean.broken.append({"module": "Generated.Incr", "reason": "translator refused: " + r})
+    for r in gen_e["refusals"]:
+        lean.broken.append({"module": "Generated.Earley", "reason": "translator refused: " + r})
     run.coverage["generated_config"] = gen["constants"]
+    run.coverage["generated_closure_variant"] = gen_e.get("variant")
     cases = mk_cases(run, tier)
     quick = tier == "quick"
     # generous limits: the machine is shared, a loaded machine must not turn slow cases into missing cases
@@ -513,6 +622,7 @@ def main(tier: str) -> int:
     corr: list = []
     scan_reqs: list = []
     run_reqs: list = []
+    erun_reqs: list = []
     for case, res in zip(cases, results):
         if "words" not in res:
             key = "timeout" if res.get("timeout") else "killed" if res.get("killed") else "error"
@@ -522,7 +632,7 @@ def main(tier: str) -> int:
             continue
         run.count("grammar:ok")
         run.count("grammar:linear" if res["alts"] is not None else "grammar:not-linear")
-        check_result(run, case, res, corr, scan_reqs, run_reqs)
+        check_result(run, case, res, corr, scan_reqs, run_reqs, erun_reqs)
     # deduplicate identical scan calls before asking the model
     seen, uniq = set(), []
     for q in scan_reqs:
@@ -532,8 +642,12 @@ def main(tier: str) -> int:
             uniq.append(q)
     run.count("scan_calls_distinct", len(uniq))
     compare_model(run, corr, uniq, run_reqs)
+    compare_erun(run, corr, erun_reqs)
+    if erun_reqs and not run.counters.get("erun:pieces_inside_proof"):
+        raise MachineryError("no piece of any run lies inside the passes the closure laws are proved for")
     ok_share = run.counters.get("grammar:ok", 0) / max(1, len(cases))
-    run.coverage["traces_validated_against_impl"] = run.counters.get("corr:scan", 0) + run.counters.get("corr:run", 0)
+    run.coverage["traces_validated_against_impl"] = (run.counters.get("corr:scan", 0) + run.counters.get("corr:run", 0)
+                                                     + run.counters.get("corr:erun", 0))
     run.coverage["correspondence_disagreements"] = len(corr)
     run.coverage["disagreement_samples"] = corr[:5]
     if ok_share < 0.6:
